@@ -242,6 +242,55 @@ def run_codecs(ev, state, coords, job):
                 f'{got} / values differ from written {data[k].shape}')
   except Exception as e:  # pylint: disable=broad-except
     bad(f'covariate dataset round trip raised {type(e).__name__}: {str(e)[:160]}')
+  # 9. state written / read under an external naming convention
+  try:
+    if job['family'] in ('dry', 'time', 'moist', 'cloud'):
+      d = {k: (dict(v) if isinstance(v, dict) else v) for k, v in state.asdict().items()}
+      d = jax.tree_util.tree_map(np.asarray, d)
+      renaming = {'vo': 'vorticity', 'dv': 'divergence', 'tv': 'temperature_variation',
+                  'lnsp': 'log_surface_pressure'}
+      ds = xarray_utils.data_to_xarray_with_renaming(
+          d, to_xarray_fn=xarray_utils.data_to_xarray, renaming_dict=renaming,
+          coords=coords, times=None)
+      missing = [k for k in renaming if k not in ds]
+      if missing:
+        bad(f'data_to_xarray_with_renaming did not produce variables {missing}')
+      else:
+        import functools
+        names = sorted(d.get('tracers', {}))
+        fn = (xarray_utils.xarray_to_primitive_eq_data if job['family'] == 'dry'
+              else xarray_utils.xarray_to_primitive_equations_with_time_data)
+        back = xarray_utils.xarray_to_data_with_renaming(
+            ds, xarray_to_data_fn=functools.partial(fn, tracers_to_include=names),
+            renaming_dict=renaming)
+        ok, msg = tree_bits_equal(d, back)
+        if not ok:
+          bad(f'state written and read back under a renaming convention differs: {msg}')
+  except Exception as e:  # pylint: disable=broad-except
+    bad(f'renaming round trip raised {type(e).__name__}: {str(e)[:200]}')
+  # 10. auxiliary features (orography, reference profiles) through a dataset
+  try:
+    g = coords.horizontal
+    rs = np.random.RandomState(ev['ds'] ^ 77)
+    aux = {xarray_utils.OROGRAPHY: rs.standard_normal(tuple(g.nodal_shape)),
+           xarray_utils.REF_TEMP_KEY: np.asarray(job['tref'][:job['layers']], np.float64)
+           if job['family'] != 'sw' else np.arange(job['layers'], dtype=np.float64)}
+    if job['family'] == 'sw':
+      aux = {xarray_utils.OROGRAPHY: aux[xarray_utils.OROGRAPHY],
+             xarray_utils.REF_POTENTIAL_KEY: np.asarray(job['sw_phi'], np.float64)}
+    import xarray
+    ds = xarray_utils.aux_features_to_xarray(aux)
+    if rng.random() < 0.5:
+      ds = xarray.load_dataset(ds.to_netcdf())
+    back = xarray_utils.aux_features_from_xarray(ds)
+    if sorted(back) != sorted(aux):
+      bad(f'aux features keys {sorted(back)} != {sorted(aux)}')
+    else:
+      for k in aux:
+        if back[k].shape != aux[k].shape or not np.array_equal(back[k], aux[k]):
+          bad(f'aux feature {k} not reproduced bit-identically')
+  except Exception as e:  # pylint: disable=broad-except
+    bad(f'aux features round trip raised {type(e).__name__}: {str(e)[:200]}')
   # 8. coordinate systems of every vertical type through dataset attributes
   #    (and netCDF bytes): the discretisation must be reproduced
   try:
